@@ -27,7 +27,7 @@ def sensitivity():
         out.append("")
     p = os.path.join(VERIF, "mutants/results-seeded.json")
     if os.path.exists(p):
-        res = json.load(open(p))["results"]
+        res = [r for r in json.load(open(p))["results"] if os.path.exists(os.path.join(VERIF, "seeded", r["id"], "patch.diff"))]
         n = sum(1 for r in res if r.get("detected"))
         out.append(f"**Seeded changes by independent sub-agents** ({n}/{len(res)} make the property's quick check exit 1 with the machinery as committed):\n")
         out.append("| seeded change | property | what it needs in order to manifest (author's note, abridged) | violation key reported by the check |")
@@ -40,7 +40,7 @@ def sensitivity():
             out.append(f"| {r['id']} | {r['pid']} | {needs} | `{key}` |")
     p = os.path.join(VERIF, "mutants/results-benign.json")
     if os.path.exists(p):
-        res = json.load(open(p))["results"]
+        res = [r for r in json.load(open(p))["results"] if os.path.exists(os.path.join(VERIF, "benign", r["id"], "patch.diff"))]
         n = sum(1 for r in res if r.get("silent"))
         out.append("")
         out.append(f"**Benign (behaviour-preserving) changes** ({n}/{len(res)} leave all ten quick checks silent, i.e. exit 0):\n")
